@@ -38,6 +38,9 @@ F: Dict[str, Dict[str, Any]] = {
     'dup-sub':       {'pk/a.py': 'class Dd:\n    "first"\nclass Dd2(Dd): pass\ndef Dd(): "second"\n'},
     'private':       {'pk/a.py': 'class _P(A):\n    def _pm(self): pass\n'},
     'private-mod':   {'__files__': {'pk/_impl.py': '"""Impl."""\nclass Q:\n    def qm(self): "L{Q}"\n'}, 'pk/b.py': 'from ._impl import Q\nclass QB(Q): pass\n'},
+    # members inherited and not overridden, two levels down: what the "Inherited from" tables of the subclasses list
+    'inherit-no-override': {'pk/a.py': 'class Base2:\n    "base2"\n    def zzsecretmeth(self): "secret doc"\n    zzsecretattr = 1\n    "attr doc"\n    def shown(self): "s"\n',
+                            'pk/b.py': 'from .a import Base2\nclass Child2(Base2):\n    "c2"\n    def own(self): pass\nclass Grand2(Child2):\n    "g2"\n'},
     'hidden-base':   {'pk/a.py': 'class H(A):\n    def meth(self): pass\n', 'pk/b.py': 'from .a import H\nclass HB(H):\n    def meth(self): "L{H}"\n',
                       '__args__': ['--privacy', 'HIDDEN:pk.a.H']},
     'hidden-mod':    {'__files__': {'pk/hid.py': '"""Hid."""\nclass HM:\n    def hm(self): pass\n'}, 'pk/b.py': 'from .hid import HM\nclass HMB(HM):\n    def hm(self): "L{HM.hm}"\n',
@@ -354,6 +357,31 @@ def traces_of_hidden(out: str, system: Any, target: str, pages: Optional[Dict[st
                 items = [x.strip() for x in re.sub(r'<[^>]+>', '', m.group(3)).replace(':', ' ').split(',')]
                 if k in [i.strip() for i in items]:
                     sigs.append((('hidden-in-relationship-list', m.group(2).replace(' ', '-'), kindname), f'{f}: "{m.group(2)}" lists hidden {k}'))
+        # a member-table ROW (own or "Inherited from") naming the hidden member, with or without a link: generated, not written by an author
+        if not isinstance(o, (model.Module,)):
+            for f in os.listdir(out):
+                if not f.endswith('.html') or f in SUMMARY_PAGES:
+                    continue
+                txt = open(os.path.join(out, f), encoding='utf-8').read()
+                for m in re.finditer(r'<tr class="[^"]*">(.*?)</tr>', txt, flags=re.S):
+                    cells = re.findall(r'<td[^>]*>(.*?)</td>', m.group(1), flags=re.S)
+                    if len(cells) >= 2 and re.sub(r'<[^>]+>', '', cells[1]).strip() == o.name:
+                        # the same short name may be a visible member of the page's own class: the row is the hidden one's only if no visible
+                        # object of that name is documented on / inherited by the page's class
+                        page_obj = next((x for x in system.allobjects.values() if unquote(x.url) == f), None)
+                        visible_same = False
+                        if page_obj is not None and hasattr(page_obj, 'mro'):
+                            for kls in page_obj.mro():
+                                c = kls.contents.get(o.name)
+                                if c is not None:
+                                    visible_same = c.isVisible and c is not o
+                                    break
+                        elif page_obj is not None:
+                            c = page_obj.contents.get(o.name)
+                            visible_same = c is not None and c.isVisible and c is not o
+                        first_definer_is_hidden = page_obj is not None and hasattr(page_obj, 'mro') and next((kls.contents[o.name] for kls in page_obj.mro() if o.name in kls.contents), None) is o
+                        if not visible_same and (first_definer_is_hidden or (page_obj is not None and page_obj.contents.get(o.name) is o)):
+                            sigs.append((('hidden-member-table-row', kindname), f'{f}: a member table has a row for hidden {k}'))
         # an index ROW without a link is a row all the same: modules in the module index and on the start page
         if isinstance(o, model.Module):
             for f in ('moduleIndex.html', 'index.html'):
